@@ -1,6 +1,7 @@
 package eval
 
 import (
+	"strings"
 	"ti/base"
 	"ti/context"
 	"ti/parser"
@@ -45,7 +46,7 @@ func (h *Hash) Evaluation(
 
 		switch nextT.GetType() {
 		case base.UNKNOWN:
-			key = ":" + nextT.ToString()[:len(nextT.ToString())-1]
+			key = ":" + strings.TrimSuffix(nextT.ToString(), ":")
 
 		default:
 			key = nextT.ToString()
